@@ -609,7 +609,7 @@ def run(ctx):
         if rng.random() < (0.25 if quick else 1.0):
             lines.append("basis " + fseqs(rng.sample(list(b), 3) + ([b[0]] if rng.random() < 0.3 else [])))
     ctx.compare("basis-construction", lines)
-    R = 1500 if quick else 20000
+    R = 1500 if quick else 6000
     maxlen = 7 if quick else 8
     ctx.compare("random-histories", [random_history(rng, maxlen) for _ in range(R)])
     # first() on mesh classes with an empty level followed by non-empty ones (dedicated stream)
@@ -627,7 +627,7 @@ def run(ctx):
     ctx.compare("mesh-gap-first", lines)
     # longer jumps back and forth on one class (compaction / spots still needed)
     lines = []
-    for _ in range(300 if quick else 3000):
+    for _ in range(300 if quick else 1500):
         b = fseqs(rand_classical_basis(rng, maxlen=5 if not quick else 4))
         ops = ["N:a:" + b]
         for _ in range(rng.randrange(4, 12)):
